@@ -9,6 +9,9 @@
 (*   neg2   q t soaTtl soaMin      (caching-client layer) upstream answered    *)
 (*                                 NXDOMAIN/NODATA with this SOA               *)
 (*   clear                         (caching-client layer) clear_cache()        *)
+(*   cnamefail q t c first second  (caching-client layer) alias answered, the  *)
+(*                                 follow-up for its target failed transiently; *)
+(*                                 asked again at once                          *)
 (*   chain  q t cnames finals      (caching-client layer, aliases folded away) *)
 (*                                 upstream answered with a chain of aliases   *)
 (*                                 (their TTLs) ending in these records        *)
@@ -62,6 +65,29 @@ Allowed ==
           /\ ~Late(s.at, e.t, PosLifeHi(cfg, e.q, aliases \o s.orig))
           /\ Len(e.ttls) = Len(s.orig)
           /\ \A i \in 1..Len(e.ttls) : e.ttls[i] = tf[i] \/ e.ttls[i] = to[i]
+          /\ ("validTicks" \in DOMAIN e) => e.validTicks <= s.at + PosLifeHi(cfg, e.q, aliases \o s.orig) * TicksPerSec - e.t + (TicksPerSec - 1)
+       /\ store' = store
+    \* the same with the aliases kept in the answer (preserve_intermediates): how the records of such an
+    \* answer are laid out is not prescribed here, its lifetime and the validity it claims are
+    \/ /\ e.ev = "pchain"
+       /\ store' = Put(Key(e.q), [kind |-> "pchain", at |-> e.t, orig |-> e.finals, cn |-> e.cnames, neg |-> 0 - 1])
+    \/ /\ e.ev = "get" /\ e.res = "pos"
+       /\ Key(e.q) \in DOMAIN store
+       /\ LET s == store[Key(e.q)]
+              aliases == [i \in 1..Len(s.cn) |-> [sec |-> "an", type |-> "CNAME", ttl |-> s.cn[i]]]
+              life == PosLifeHi(cfg, e.q, aliases \o s.orig)
+          IN
+          /\ s.kind = "pchain"
+          /\ s.at <= e.t
+          /\ ~Late(s.at, e.t, life)
+          /\ ("validTicks" \in DOMAIN e) => e.validTicks <= s.at + life * TicksPerSec - e.t + (TicksPerSec - 1)
+       /\ store' = store
+    \* an alias whose target failed with a transient error: asked again at once, nothing negative may
+    \* come out of the cache ("transient errors are never cached")
+    \/ /\ e.ev = "cnamefail"
+       /\ e.first # "PANIC" /\ e.second # "PANIC"
+       \* (judged only if the scenario ran at all, i.e. the first lookup went upstream)
+       /\ e.asked1 => ~(e.second = "neg" /\ ~e.asked2)
        /\ store' = store
     \* the caller asked to flush the cache
     \/ /\ e.ev = "clear"
@@ -79,6 +105,11 @@ Allowed ==
           /\ ~Late(s.at, e.t, PosLifeHi(cfg, e.q, s.orig))
           \* C15_TtlExact (which implies C15_Monotone between refreshes)
           /\ e.ttls = HitTtls(StoredRecs(cfg, s.orig), s.at, e.t)
+          \* what the result says about its own validity does not reach beyond the entry's lifetime
+          \* (counted like the TTLs in whole seconds elapsed: up to one tick of slack)
+          \* (the result speaks for its ANSWER section; records of the other sections may bound the entry further)
+          /\ ("validTicks" \in DOMAIN e) =>
+                e.validTicks <= s.at + PosLifeHi(cfg, e.q, SelectSeq(s.orig, LAMBDA r : r.sec = "an")) * TicksPerSec - e.t + (TicksPerSec - 1)
        /\ store' = store
     \/ /\ e.ev = "get" /\ e.res = "neg"
        /\ Key(e.q) \in DOMAIN store
@@ -98,7 +129,7 @@ Expected ==
     THEN LET s == store[Key(e.q)] IN
          [kind |-> s.kind, at |-> s.at,
           lifeHi |-> IF s.kind = "pos" THEN PosLifeHi(cfg, e.q, s.orig)
-                     ELSE IF s.kind = "chain"
+                     ELSE IF s.kind \in {"chain", "pchain"}
                      THEN PosLifeHi(cfg, e.q, [i \in 1..Len(s.cn) |-> [sec |-> "an", type |-> "CNAME", ttl |-> s.cn[i]]] \o s.orig)
                      ELSE NegLifeHi(cfg, e.q, s.neg),
           ttls |-> IF s.kind = "pos" THEN HitTtls(StoredRecs(cfg, s.orig), s.at, e.t) ELSE <<>>,
